@@ -361,6 +361,14 @@ class VCounted:
         self.count, self.last = count, last
 
 
+class VGroups:
+    """the list of variable groups of a formula, seen through what the manager's own code looks at: how many there are and, for
+    the i-th one, its identifier range [lo[i], hi[i]) and whether it is a single-variable group"""
+
+    def __init__(self, length, lo, hi, single):
+        self.length, self.lo, self.hi, self.single = length, lo, hi, single
+
+
 class VClass:
     """a class passed as a value (formula_class): `ident` distinguishes the classes symbolically"""
 
@@ -657,6 +665,11 @@ class Engine:
             L = self.fresh(base + '_len')
             self.assume(L >= 1)
             return VArrN0(L, self.fresh(base + '_arr', z3.ArraySort(z3.IntSort(), z3.IntSort())))
+        if ty == 'grouplist':
+            L = self.fresh(base + '_len')
+            self.assume(L >= 0)
+            A = z3.ArraySort(z3.IntSort(), z3.IntSort())
+            return VGroups(L, self.fresh(base + '_lo', A), self.fresh(base + '_hi', A), self.fresh(base + '_single', z3.ArraySort(z3.IntSort(), z3.BoolSort())))
         if ty == 'intlist2':
             L = self.fresh(base + '_len')
             self.assume(L >= 0)
@@ -866,6 +879,8 @@ class Engine:
             return o
         if isinstance(v, VMList):
             return VMList(v.term)
+        if isinstance(v, VGroups):
+            return VGroups(v.length, v.lo, v.hi, v.single)
         if isinstance(v, VCounted):
             return VCounted(v.count, v.last)
         if isinstance(v, VSink):
@@ -910,6 +925,7 @@ class Engine:
                             src=self.cur_func.split('#')[0])]
         for k in self.yield_sites(self.frames[0]).values():
             env['_y{}'.format(k)] = z3.IntVal(0)
+            env['_ytotal'] = z3.IntVal(0)           # ghost: how many values the generator has yielded so far
         if c.get('yield_acc'):
             env['_ys'] = VSeq(specs.cnil)            # ghost: the sequence of clauses yielded so far
         outcome = ('normal', None)
@@ -1286,6 +1302,11 @@ class Engine:
         if isinstance(v, VParities):
             v.aug = self.fresh(name + '_aug', specs.CSeq)
             return v
+        if isinstance(v, VGroups):
+            v.length = self.fresh(name + '_len')
+            self.pc.append(v.length >= 0)
+            v.lo, v.hi, v.single = self.fresh(name + '_lo', v.lo.sort()), self.fresh(name + '_hi', v.hi.sort()), self.fresh(name + '_single', v.single.sort())
+            return v
         if isinstance(v, VCounted):
             n = self.fresh(name + '_count')
             self.pc.append(n >= 0)
@@ -1357,7 +1378,7 @@ class Engine:
         names |= set(extra_names)
         if '_y*' in names:
             names.discard('_y*')
-            names |= {k for k in env if k.startswith('_y') and (k[2:].isdigit() or k == '_ys')}
+            names |= {k for k in env if k.startswith('_y') and (k[2:].isdigit() or k in ('_ys', '_ytotal'))}
         havoced = set(names)
         for x in spec.get('modifies_objects', []):       # objects mutated through callee contracts
             o = self.spec_eval(x, env)
@@ -1685,6 +1706,16 @@ class Engine:
             niter = it.length
             arr0 = it.arr
             elem = lambda i: z3.Select(arr0, i)
+        elif isinstance(it, VGroups):
+            niter = it.length
+            glo, ghi, gsi = it.lo, it.hi, it.single
+
+            def elem(i, glo=glo, ghi=ghi, gsi=gsi):
+                o = VObj('GroupView')
+                lo_, hi_ = z3.Select(glo, i), z3.Select(ghi, i)
+                o.fields.update({'ids_lo': lo_, 'ids_hi': hi_, 'ids': VRange(lo_, hi_, 1), 'single': z3.Select(gsi, i),
+                                 'name': VOpaque('label of a single variable'), 'gpos': i})
+                return o
         elif isinstance(it, VRow):
             # a row of a list of lists (e.g. an adjacency list): iterated as it is at loop entry
             niter = it.length
@@ -1826,6 +1857,15 @@ class Engine:
                         self.oblige('yield', tx, self.spec_eval(tx, e2), y.lineno)
                 finally:
                     del self.pc[saved:]
+                env['_ytotal'] = toz(env.get('_ytotal', 0)) + zmax(toz(v.length), z3.IntVal(0))
+                return
+            if isinstance(v, VStrs) and specs_y is not None:
+                # `yield from <sequence of opaque texts>`: that many values; the clauses of the site speak about the count `_ylen`
+                e2 = dict(env)
+                e2['_ylen'] = specs.sslen(v.term)
+                for tx in specs_y:
+                    self.oblige('yield', tx, self.spec_eval(tx, e2), y.lineno)
+                env['_ytotal'] = toz(env.get('_ytotal', 0)) + specs.sslen(v.term)
                 return
             raise Unsupported('yield from')
         v = self.eval(y.value, env)
@@ -1851,6 +1891,7 @@ class Engine:
             self.oblige('yield', t, self.spec_eval(t, e2), y.lineno)
         name = '_y{}'.format(k)
         env[name] = toz(env.get(name, 0)) + 1
+        env['_ytotal'] = toz(env.get('_ytotal', 0)) + 1
         fr['ycount'] = fr.get('ycount', 0) + 1
 
     # ------------------------------------------------------------------ expressions
@@ -2236,8 +2277,14 @@ class Engine:
             if e.attr[-3:] in ('_lo', '_hi') and isinstance(o.fields.get(e.attr[:-3]), VRange):
                 r = o.fields[e.attr[:-3]]
                 return toz(r.lo) if e.attr.endswith('_lo') else toz(r.hi)
+            crel = self.classmodels.get(o.cls, {}).get('file')
+            real = self.classmodels.get(o.cls, {}).get('real', o.cls)
+            if crel and not getattr(self, 'in_spec', False) and self.repo.find_class(crel, real) and self.repo.resolve_method(crel, real, e.attr) is None \
+                    and not any(k[1] == '{}.{}'.format(o.cls, e.attr) for k in self.contracts):
+                # neither a declared field nor a method of the class: the code reads state the class model does not describe
+                raise Unsupported('attribute {} of {} is not part of its class model {}'.format(e.attr, real, o.cls))
             return ('method', o, e.attr)
-        if isinstance(o, (VTuple, VMList, VArr, VSeq, VOpaque, VCounted, VArr2, VRow, VSet2, VStr, VStrs, VFmt, VSink, VSeqSet, VParities)) or isinstance(o, str):
+        if isinstance(o, (VTuple, VMList, VArr, VSeq, VOpaque, VCounted, VGroups, VArr2, VRow, VSet2, VStr, VStrs, VFmt, VSink, VSeqSet, VParities)) or isinstance(o, str):
             return ('method', o, e.attr)
         if isinstance(o, tuple) and o[0] == 'global':
             return ('global', o[1] + '.' + e.attr)
@@ -3598,7 +3645,8 @@ def sf_mapcall(eng, node, g, n, m, index):
 
 
 SPEC_FUNCS = {
-    'combs2': lambda eng, node, lo, hi: VCombs2(toz(lo), toz(hi)), 'cvar': _wrap(specs.cvar), 'degsum': _wrap(specs.degsum), 'gadj': _wrap(specs.gadj), 'pvar': _wrap(specs.pvar), 'cnb': _wrap(specs.cnb), 'isorted': _wrap(specs.isorted), 'nbj': _wrap(specs.nbj), 'nbv': _wrap(specs.nbv), 'lnbrs': _wrap(specs.lnbrs),
+    'combs2': lambda eng, node, lo, hi: VCombs2(toz(lo), toz(hi)), 'cvar': _wrap(specs.cvar), 'degsum': _wrap(specs.degsum), 'gadj': _wrap(specs.gadj), 'pvar': _wrap(specs.pvar), 'glo': lambda eng, node, g, i: z3.Select(g.lo, toz(i)), 'ghi': lambda eng, node, g, i: z3.Select(g.hi, toz(i)),
+    'gsingle': lambda eng, node, g, i: z3.Select(g.single, toz(i)), 'cnb': _wrap(specs.cnb), 'isorted': _wrap(specs.isorted), 'nbj': _wrap(specs.nbj), 'nbv': _wrap(specs.nbv), 'lnbrs': _wrap(specs.lnbrs),
     'mapcall': sf_mapcall, 'mrow': _wrap(specs.mrow), 'mcol': _wrap(specs.mcol),
     'evnest': _wrap(specs.evnest), 'dedges': _wrap(specs.dedges),
     'yxdom': _wrap(specs.yxdom),
@@ -3687,7 +3735,7 @@ def b_len(eng, node, v):
         return len(v.items)
     if isinstance(v, (VSeq, VMList)):
         return {'ISeq': specs.ilen, 'CSeq': specs.clen, 'OSeq': specs.olen}[v.term.sort().name()](v.term)
-    if isinstance(v, VArr):
+    if isinstance(v, (VArr, VGroups)):
         return v.length
     if isinstance(v, VPairs):
         return v.length
@@ -3802,6 +3850,8 @@ def b_isinstance(eng, node, v, t):
         return True
     if isinstance(v, VSink):
         return False                      # a text stream is not a str / not a formula class
+    if isinstance(v, VObj) and name and name.split('.')[-1] == 'SingletonVariableGroup' and 'single' in v.fields:
+        return v.fields['single']              # a group of the manager's list: single-variable group or not, per group
     if isinstance(v, VObj) and name:
         real = eng.classmodels.get(v.cls, {}).get('real', v.cls)
         mro = eng.class_mro(v.cls)
@@ -4010,6 +4060,16 @@ LIBRARY = {'itertools.combinations': lib_combinations, 'itertools.product': lib_
 
 
 def lm_append(eng, node, o, x):
+    if isinstance(o, VGroups):
+        if not (isinstance(x, VObj) and 'ids_lo' in x.fields and 'ids_hi' in x.fields):
+            raise Unsupported('append of something that is not a variable group')
+        real = eng.classmodels.get(x.cls, {}).get('real', x.cls)
+        single = x.fields['single'] if 'single' in x.fields else z3.BoolVal(real == 'SingletonVariableGroup')
+        o.lo = z3.Store(o.lo, o.length, toz(x.fields['ids_lo']))
+        o.hi = z3.Store(o.hi, o.length, toz(x.fields['ids_hi']))
+        o.single = z3.Store(o.single, o.length, single)
+        o.length = o.length + 1
+        return None
     if isinstance(o, VCounted):
         o.count = o.count + 1
         o.last = x
@@ -4366,5 +4426,5 @@ def lm_tuple_index(eng, node, o, x):
 LIST_METHODS = {('VMList', 'sort'): lm_mclist_sort, ('VTuple', 'index'): lm_tuple_index, ('VSeq', 'index'): lm_iseq_index, ('VStr', 'strip'): lm_str_strip, ('VStr', 'split'): lm_str_split, ('VStr', 'isascii'): lm_str_pred,
                 ('VStr', 'isdigit'): lm_str_pred, ('VStr', 'startswith'): lm_str_pred, ('VStr', 'lstrip'): lm_str_strip,
                 ('VStr', 'rstrip'): lm_str_strip, ('VOpaqueFile', 'readlines'): lm_readlines, ('VArr2', 'get'): lm_dict_get, ('VRow', 'insert'): lm_row_insert, ('VRow', 'remove'): lm_row_remove, ('VArr2', 'append'): lm_arr2_append,
-                ('VSet2', 'add'): lm_set_add, ('VSet2', 'remove'): lm_set_remove,('VTuple', 'append'): lm_append, ('VCounted', 'append'): lm_append, ('VMList', 'append'): lm_append, ('VArr', 'append'): lm_append,
+                ('VSet2', 'add'): lm_set_add, ('VSet2', 'remove'): lm_set_remove,('VTuple', 'append'): lm_append, ('VCounted', 'append'): lm_append, ('VGroups', 'append'): lm_append, ('VMList', 'append'): lm_append, ('VArr', 'append'): lm_append,
                 ('VTuple', 'pop'): lm_pop, ('VArr', 'pop'): lm_pop}
